@@ -785,3 +785,74 @@ func errRoot(xr, litExpr string) bool {
 	}
 	return false
 }
+
+// ---------------------------------------------------------------------------
+// NOREACH — a literal excludes an effect
+
+// NOREACH: from every CFG edge of Fn (closures included) on which literal FromLit holds, no site of Sink
+// is reachable inside that function (e.g. a step loop must not run the next step after a non-empty result).
+type NOREACH struct {
+	ID      string
+	Fn      string
+	FromLit string
+	Sink    string
+	Min     int
+	Note    string
+}
+
+func (r NOREACH) RuleID() string { return r.ID }
+
+func (r NOREACH) Check(w *World) []Result {
+	fn := w.Fn(r.Fn)
+	if fn == nil {
+		return anchorMissing(r.ID, "NOREACH", r.Fn)
+	}
+	pat := MustLitPat(r.FromLit)
+	sinkRe := regexp.MustCompile(r.Sink)
+	construct := "NOREACH:" + r.Fn + ":" + r.FromLit + "↛" + r.Sink
+	n := 0
+	var out []Result
+	for _, f := range WithClosures(fn) {
+		sinks := w.Sites(f, sinkRe, false)
+		// closures created in f that contain the sink count as sink sites at their creation point
+		for _, b := range f.Blocks {
+			for _, in := range b.Instrs {
+				if mc, ok := in.(*ssa.MakeClosure); ok {
+					if cf, ok := mc.Fn.(*ssa.Function); ok && len(w.Sites(cf, sinkRe, true)) > 0 {
+						sinks = append(sinks, mc)
+					}
+				}
+			}
+		}
+		for _, b := range f.Blocks {
+			t, fl, ok := w.BlockLits(b)
+			if !ok {
+				continue
+			}
+			for i, l := range []Lit{t, fl} {
+				if !pat.Match(l) {
+					continue
+				}
+				n++
+				reach := Reach([]*ssa.BasicBlock{b.Succs[i]}, nil)
+				for _, s := range sinks {
+					if reach[s.Block()] {
+						out = append(out, one(r.ID, "NOREACH", construct, Violated, n, w.InstrPos(b.Instrs[len(b.Instrs)-1]),
+							fmt.Sprintf("in %s, after `%s` holds the effect `%s` (@%s) is still reachable", FnName(f), clip(l.String(), 120), clip(w.RenderInstr(s), 100), w.InstrPos(s))))
+					}
+				}
+			}
+		}
+	}
+	min := r.Min
+	if min == 0 {
+		min = 1
+	}
+	if n < min {
+		return []Result{one(r.ID, "NOREACH", construct, Violated, n, w.Pos(fn.Pos()), fmt.Sprintf("vacuous: %d branch(es) on `%s` in %s, %d confirmed by hand", n, r.FromLit, r.Fn, min))}
+	}
+	if len(out) == 0 {
+		out = append(out, one(r.ID, "NOREACH", construct, Discharged, n, w.Pos(fn.Pos()), fmt.Sprintf("%d branch(es); effect unreachable after each", n)))
+	}
+	return out
+}
